@@ -43,8 +43,8 @@ Definition fp_eqb (a b : Z * Z) : bool := (fst a =? fst b) && (snd a =? snd b).
 Definition afp_eqb (a : Z * (Z * Z)) (b : Z * (Z * Z)) : bool := (fst a =? fst b) && fp_eqb (snd a) (snd b).
 
 Inductive case : Type :=
-(* tools.CalcImageOffset(image, addr) on an image of layout l *)
-| COffset (l : layout) (addr : Z) (r : obs Z)
+(* tools.CalcImageOffset(image, addr) on an image of layout l and length n *)
+| COffset (l : layout) (n : Z) (addr : Z) (r : obs Z)
 (* CreateIBBSegments(se_idx, flags, file) on a UEFI image with the given FIT; manifest with se_count SE *)
 | CSegFit (se_count se_idx flags : Z) (fit : option (list fit_entry)) (r : obs (list segment))
 (* the same on a coreboot image *)
@@ -65,7 +65,7 @@ Definition map_outcome {A B} (f : A -> B) (o : outcome A) : outcome B :=
 
 Definition check (c : case) : bool :=
   match c with
-  | COffset l addr r => obs_match Z.eqb r (calc_offset l addr)
+  | COffset l n addr r => obs_match Z.eqb r (calc_offset l n addr)
   | CSegFit n i flags fit r => obs_match (list_eqb seg_eqb) r (create_ibb_segments n i flags fit)
   | CSegCbfs n i flags fs co files r =>
       obs_match (list_eqb seg_eqb) r (create_ibb_segments_cbfs n i flags fs co files)
